@@ -178,7 +178,7 @@ class ImageWriter:
         min_row, max_row = y0 // inc, y1 // inc
         x0_floor, x1_floor = inc * min_col, inc * max_col
         y0_floor, y1_floor = inc * min_row, inc * max_row
-        min_x, min_y = width, height
+        min_x, min_y = x1, y1
         max_x = max_y = 0
 
         y = y0_floor
